@@ -1467,6 +1467,50 @@ def r143(ctx, repo, sites):
                f"{cls.name} overrides {over}: the identifier verification of "
                f"Basin can be by-passed for {typ} basins", node=cls,
                key=f"{rel}::{cls.name}::verification chain not overridden")
+    # what is compared is what was stored: the metadata converters of the
+    # keys the measurement identifier is made of keep the string as it is
+    gmi = repo.func(CORE, "RTDCBase.get_measurement_identifier")
+    keys = set()
+    for c in [n for n in walk(gmi) if isinstance(n, ast.Call)]:
+        if last_attr(c) == "get" and c.args and isinstance(
+                c.func.value, ast.Call) and last_attr(
+                c.func.value) == "get" and c.func.value.args:
+            sec, key = const_str(c.func.value.args[0]), const_str(c.args[0])
+            if sec and key:
+                keys.add((sec, key))
+    for n in walk(gmi):
+        if isinstance(n, ast.Subscript) and isinstance(
+                n.value, ast.Subscript) and const_str(n.slice) and const_str(
+                n.value.slice) and "config" in txt(n.value.value):
+            keys.add((const_str(n.value.slice), const_str(n.slice)))
+    if ("experiment", "run identifier") not in keys:
+        raise AnalysisError("get_measurement_identifier: run identifier "
+                            "lookup not recognised")
+    META = "dclab/definitions/meta_const.py"
+    table = repo.module_assign(META, "CFG_METADATA")
+    if not isinstance(table, ast.Dict):
+        raise AnalysisError("CFG_METADATA cannot be folded")
+    conv = {}
+    for k, v in zip(table.keys, table.values):
+        if isinstance(v, (ast.List, ast.Tuple)):
+            for item in v.elts:
+                if isinstance(item, (ast.List, ast.Tuple)) and len(
+                        item.elts) >= 2 and const_str(item.elts[0]):
+                    conv[(const_str(k), const_str(item.elts[0]))] = \
+                        item.elts[1]
+    for sec, key in sorted(keys):
+        if (sec, key) not in conv:
+            raise AnalysisError(f"CFG_METADATA has no entry [{sec}] '{key}'")
+        c_ = conv[(sec, key)]
+        ok = is_name(c_, "str")
+        ctx.ob("R14.3", ok,
+               f"[{sec}] '{key}' is stored as the plain string" if ok else
+               f"[{sec}] '{key}' passes the converter `{txt(c_)}` when a "
+               f"file is read: identifiers are no longer compared as "
+               f"written (e.g. case-insensitively) and a foreign "
+               f"measurement can pass the identifier check",
+               node=c_, key=f"{META}::CFG_METADATA::converter of [{sec}] "
+               f"{key} keeps the identifier")
     # the writer applies the same law
     sb = repo.func(WRITER, "RTDCWriter.store_basin")
     cur = [n.targets[0].id for n in walk(sb) if isinstance(n, ast.Assign)
@@ -1881,6 +1925,39 @@ def r144_probes(ctx, repo):
                key=f"{rel}::{q}::availability probed on every call")
     if n_ob < len(methods):
         raise AnalysisError("availability probes not found")
+    # the HTTP probe asks like the later data access does: a request that
+    # follows redirects, so that the status of the final target is judged
+    for (rel, name), (fn, _) in sorted(graph.items(),
+                                       key=lambda kv: kv[0]):
+        if (rel, name) not in impure or isinstance(fn.parent, ast.ClassDef):
+            continue
+        params = {a.arg for a in fn.args.args}
+        for c in [n for n in walk(fn) if isinstance(n, ast.Call)]:
+            if not (isinstance(c.func, ast.Attribute) and c.func.attr in (
+                    "get", "head", "options", "post", "request")
+                    and c.args and isinstance(c.args[-1 if c.func.attr ==
+                                                     "request" else 0],
+                                              ast.Name)
+                    and c.args[-1 if c.func.attr == "request" else 0].id
+                    in params
+                    and any(k.arg == "timeout" for k in c.keywords)):
+                continue
+            ar = kwarg(c, "allow_redirects")
+            if c.func.attr == "get":
+                ok = ar is None or txt(ar) == "True"
+            elif c.func.attr in ("head", "options"):
+                ok = ar is not None and txt(ar) == "True"
+            else:
+                raise AnalysisError(f"{rel}::{name}: request "
+                                    f"`{short(c, 50)}` not recognised")
+            ctx.ob("R14.4", ok,
+                   f"{name} probes with `{c.func.attr}` following redirects "
+                   f"(as the data access does)" if ok else
+                   f"`{short(c, 60)}` does not follow redirects: a basin URL "
+                   f"that redirects to a dead target answers 3xx and is "
+                   f"reported available, its features are offered although "
+                   f"they cannot be read", node=c,
+                   key=f"{rel}::{name}::probe request follows redirects")
 
 
 def single_assign_any(func, name):
@@ -1925,10 +2002,11 @@ def run(ctx):
              "locks not re-entered", minimum=31)
     ctx.rule("R14.3", "identifier law: equality / referrer.startswith(basin), "
              "asserted before data, file basins verified, chain not "
-             "overridden, writer agrees", minimum=18)
+             "overridden, writer agrees, identifier converters", minimum=22)
     ctx.rule("R14.4", "degradation: basin access inside try, catch-all, no "
              "re-raise, None unless delivered, copy iteration, available "
-             "basins only, availability probed on every call", minimum=14)
+             "basins only, availability probed on every call with the semantics "
+             "of the data access", minimum=15)
     sites = Sites(expand_partials(inline_module_helpers(
         repo, CORE, repo.func(CORE, "RTDCBase.basins_retrieve"),
         methods=True, keep=KEEP_CALLS)))
@@ -2143,6 +2221,15 @@ MUTANTS = [
     ("writer: basin id accepted anywhere in the referrer's", WRITER,
      ("and cur_id.startswith(ds_id))):", "and ds_id in cur_id)):"),
      "R14.3"),
+    ("run identifier lower-cased when read (seeded C14_15)",
+     "dclab/definitions/meta_const.py",
+     ('        ["run identifier", str, "Unique measurement identifier"],',
+      '        ["run identifier", lcstr, "Unique measurement identifier"],'),
+     "R14.3"),
+    ("setup identifier lower-cased when read",
+     "dclab/definitions/meta_const.py",
+     ('        ["identifier", str, "Unique setup identifier"],',
+      '        ["identifier", lcstr, "Unique setup identifier"],'), "R14.3"),
     ("unmapped basins accept prefixes", FB,
      ("                        verifier = str.__eq__\n",
       "                        verifier = str.startswith\n"), "R14.3"),
@@ -2217,6 +2304,14 @@ MUTANTS = [
        "                        pathlib.Path(self.location).exists()\n"
        "                    self._known_paths[str(self.location)] = \\\n"
        "                        self._available_verified\n")], "R14.4"),
+    ("availability probe with HEAD, redirects not followed "
+     "(seeded C14_13)", "dclab/http_utils.py",
+     ("req = ses.get(url, stream=True, timeout=1)",
+      "req = ses.head(url, timeout=1)"), "R14.4"),
+    ("availability probe refuses redirects", "dclab/http_utils.py",
+     ("req = ses.get(url, stream=True, timeout=1)",
+      "req = ses.get(url, stream=True, timeout=1, allow_redirects=False)"),
+     "R14.4"),
     ("catch-all handler removed", CORE,
      ("                except BaseException:\n"
       "                    warnings.warn(f\"Could not access {feat} in {self}:\\n\"\n"
@@ -2490,6 +2585,10 @@ TWINS = [
       "        self._ds.ignore_basins(seen_basin_keys)\n"
       "        return self._ds\n")),
     ("ignore keys collected by a loop and extend()", CORE, _twin_key_loop),
+    ("availability probe with HEAD that follows redirects",
+     "dclab/http_utils.py",
+     ("req = ses.get(url, stream=True, timeout=1)",
+      "req = ses.head(url, timeout=1, allow_redirects=True)")),
     ("verify_basin as guard clauses with early returns", FB,
      _twin_verify_guard_clauses),
     ("URL probe counts its calls in a local", "dclab/http_utils.py",
